@@ -14,6 +14,11 @@ Shape (A), two explorations executed on the real ``SourceCatalog`` /
    properties they create.  The variants contain sources for every exceptional
    branch of the per-source loops (variant ``hard6``) and the index forms isolate
    every position, so a result that leaks from one source to the next is seen.
+   World coordinates are an axis of the variants: no WCS, an ordinary constant-scale WCS, and WCSs whose pixel scale
+   and orientation vary over the small image (wide-field TAN; SIP distortion).  On the latter the pixel aperture that
+   belongs to a sky aperture depends on WHICH position comes first (photutils converts the shape parameters at the
+   first position), so a child that derives anything again from its sliced inputs instead of taking the parent's
+   per-source values is seen; the SourceCatalog sky_* properties are evaluated on the wide-field WCS as well.
    An index form is a VALUE (which positions, which order) in a CONTAINER (Python
    int / list / bools, numpy scalars and arrays of several integer widths, 0-d
    array, list of numpy scalars ...): the two are crossed in full, and what an
@@ -60,7 +65,15 @@ RULE = ('commutation: full product catalog variant x pre-cache set x index form 
         'non-finite centroid, quadratic fit fails, no flux-fraction radius solution, minimum Kron radius, minimum '
         'circular Kron radius, cut by the image edge, non-finite pixel; ApertureStats: aperture cut by the edge, '
         'outside the image, completely masked), each with an ordinary predecessor, so that a value that depends on '
-        'the neighbours in the catalog shows.  A history is non-trivial when the index selects >= 1 source and either '
+        'the neighbours in the catalog shows.  World coordinates: ApertureStats variants with a sky aperture on (a) an '
+        'ordinary constant-scale TAN WCS (sky3: circle), (b) a wide-field rotated TAN WCS with 1.3 deg pixels whose local '
+        'scale differs by up to 50 % and whose North direction by 0.3 rad between the five aperture positions (skywarp5: '
+        'ellipse = two lengths and an angle, exact sums), (c) an arcsecond-scale WCS with a strong SIP distortion '
+        '(skysip4: rectangular annulus = four lengths and an angle, data with units); in (b) and (c) the pixel aperture '
+        'converted from the sky aperture depends on which position is first, so every index form that does not keep the '
+        'parent\'s first source first (counted in coverage.sky_first_position) separates "the parent\'s per-source values" '
+        'from "what a catalog built from the sliced inputs would report".  SourceCatalog: rich4 carries the wide-field WCS '
+        '(sky_centroid*, sky_bbox_*), single the constant-scale one, plain4 / hard6 none.  A history is non-trivial when the index selects >= 1 source and either '
         'something was cached before indexing or the child is scalar / reordered.  independence: BFS over '
         'extra-property histories on {parent, child}, states = digests of both instance __dict__s (date stamp '
         'excluded); non-trivial when the history contains an index and a mutation after it; every photometry method '
@@ -86,7 +99,14 @@ ASSUMPTIONS = ['numpy fancy indexing of a plain array / list comprehension is th
                'count as a "public property p" of the statement ("running photometry methods", "whether p was '
                'evaluated before or after the indexing")',
                'which exceptional branch a source of the hand-made scene takes is measured on the tree under test '
-               '(coverage.exceptional_sources), not assumed']
+               '(coverage.exceptional_sources), not assumed',
+               'for a sky aperture on a WCS with a varying pixel scale "cat.p[idx]" is, as everywhere, the value the '
+               'PARENT reports for those sources (its pixel aperture is converted once, with the scale and angle at the '
+               'parent\'s first position -- documented in SkyAperture._to_pixel_params); the statement makes the child '
+               'report the same numbers, not those of a new ApertureStats built from aperture[idx].  How much the two '
+               'differ is measured on the tree under test (coverage.sky_first_position), not assumed',
+               'the batch shortcut restores, besides the child\'s __dict__, the __dict__ of the catalogs the child holds '
+               '(the sliced detection catalog): their lazily cached values are part of the post-index state']
 
 # tolerance: child and parent run the same per-source formulas, only the vector length differs; 1e-11 relative (1e-13
 # absolute) covers last-ulp SIMD differences and is ~1e5 ulp, far below any mis-slicing (a wrong row differs by O(1)).
@@ -188,8 +208,52 @@ def _wcs():
     return w
 
 
+def _wcs_wide():
+    """A WCS whose pixel scale AND orientation vary strongly over the 40 x 32 image: plain TAN projection with
+    1.3 deg pixels (the frame spans ~50 x 40 deg; reference pixel near the lower left corner, so the radial stretch of the
+    gnomonic projection grows across the frame), rotated by 25 deg, reaching Dec ~55 deg (meridians converge: the
+    direction of North changes by ~0.3 rad over the frame).  The local scale at the five aperture positions of
+    'skywarp5' differs by up to 50 % (semimajor axis 5.2 ... 7.8 pix for the same sky aperture, measured)."""
+    from astropy.wcs import WCS
+    w = WCS(naxis=2)
+    w.wcs.ctype = ['RA---TAN', 'DEC--TAN']
+    w.wcs.crpix = [4.0, 5.0]
+    w.wcs.crval = [150.0, 20.0]
+    t = np.deg2rad(25.0)
+    w.wcs.cd = 1.3 * np.array([[-np.cos(t), np.sin(t)], [np.sin(t), np.cos(t)]])
+    w.pixel_shape = (40, 32)
+    return w
+
+
+def _wcs_sip():
+    """An arcsecond-scale WCS (0.72"/pixel, rotated by -40 deg) with an exaggerated SIP distortion polynomial of order
+    2: the local pixel scale differs by ~40 % and the orientation by ~0.1 rad between the aperture positions of
+    'skysip4' (measured).  No inverse polynomial: astropy inverts numerically."""
+    from astropy.wcs import WCS, Sip
+    w = WCS(naxis=2)
+    w.wcs.ctype = ['RA---TAN-SIP', 'DEC--TAN-SIP']
+    w.wcs.crpix = [20.0, 16.0]
+    w.wcs.crval = [210.0, -35.0]
+    t = np.deg2rad(-40.0)
+    w.wcs.cd = 2.0e-4 * np.array([[-np.cos(t), np.sin(t)], [np.sin(t), np.cos(t)]])
+    a, b = np.zeros((3, 3)), np.zeros((3, 3))
+    a[2, 0], a[1, 1], a[0, 2] = 6e-3, -4e-3, 2e-3
+    b[2, 0], b[1, 1], b[0, 2] = -3e-3, 5e-3, 7e-3
+    w.sip = Sip(a, b, None, None, w.wcs.crpix)
+    w.pixel_shape = (40, 32)
+    w.wcs.set()
+    return w
+
+
 SC_VARIANTS = ('plain4', 'rich4', 'single', 'hard6')
-AS_VARIANTS = ('circ4', 'sky3', 'single')
+# sky apertures: 'sky3' on an ordinary (constant-scale) WCS; 'skywarp5' / 'skysip4' on a WCS whose scale and orientation
+# vary over the image -- a sky aperture has ONE set of shape parameters, photutils converts them to pixels with the scale
+# and angle at the FIRST position, so "the pixel aperture of the sources idx" is a function of the parent's first
+# position, not of the selected sources
+AS_VARIANTS = ('circ4', 'sky3', 'skywarp5', 'skysip4', 'single')
+# first-position-dependent sky -> pixel conversion, per variant (positions in pixels, used by describe())
+SKYWARP5_XY = ([10.3, 29.1, 18.4, 35.2, 5.6], [9.8, 12.2, 23.1, 27.4, 26.0])
+SKYSIP4_XY = ([10.3, 29.1, 18.4, 35.2], [9.8, 12.2, 23.1, 27.4])
 
 
 def make_sc(variant, seed):
@@ -210,7 +274,10 @@ def make_sc(variant, seed):
         mask = segd == 2
         mask[0, 0] = True
         segm = SegmentationImage(segd)
-        det = SourceCatalog(conv * u.Jy, segm, mask=mask, wcs=_wcs(), apermask_method='mask', kron_params=(2.5, 1.4, 1.0))
+        # the wcs (taken over from the detection catalog) is the wide-field one: sky_centroid* / sky_bbox_* are strongly
+        # non-linear functions of the pixel position ('single' has the ordinary constant-scale WCS)
+        det = SourceCatalog(conv * u.Jy, segm, mask=mask, wcs=_wcs_wide(), apermask_method='mask',
+                            kron_params=(2.5, 1.4, 1.0))
         return SourceCatalog(img * u.Jy, segm, error=err * u.Jy, background=bkg * u.Jy, mask=mask, convolved_data=conv * u.Jy,
                              localbkg_width=2, detection_cat=det)
     if variant == 'single':
@@ -219,22 +286,50 @@ def make_sc(variant, seed):
     raise KeyError(variant)
 
 
+SKY_VARIANTS = ('sky3', 'skywarp5', 'skysip4')
+
+
+def sky_setup(variant):
+    """(sky aperture, wcs) of an ApertureStats variant with a sky aperture."""
+    import astropy.units as u
+    from photutils.aperture import SkyCircularAperture, SkyEllipticalAperture, SkyRectangularAnnulus
+    if variant == 'sky3':
+        w = _wcs()
+        return SkyCircularAperture(w.pixel_to_world([10.3, 29.1, 18.4], [9.8, 12.2, 23.1]), 0.00075 * u.deg), w
+    if variant == 'skywarp5':
+        # elliptical sky aperture (two lengths and an angle) at five positions spread over the frame of the wide-field
+        # WCS.  The aperture at position 3 is cut by the image edge.
+        w = _wcs_wide()
+        return SkyEllipticalAperture(w.pixel_to_world(*SKYWARP5_XY), 6.5 * u.deg, 3.9 * u.deg, theta=30.0 * u.deg), w
+    if variant == 'skysip4':
+        # rectangular sky annulus (four lengths and an angle) on the SIP-distorted WCS
+        w = _wcs_sip()
+        return SkyRectangularAnnulus(w.pixel_to_world(*SKYSIP4_XY), 2.0 * u.arcsec, 5.0 * u.arcsec, 3.4 * u.arcsec,
+                                     theta=20.0 * u.deg), w
+    raise KeyError(variant)
+
+
 def make_as(variant, seed):
     import astropy.units as u
     from astropy.stats import SigmaClip
-    from photutils.aperture import ApertureStats, CircularAperture, SkyCircularAperture
+    from photutils.aperture import ApertureStats, CircularAperture
     img, err, bkg, conv, segd = (a.copy() for a in _image(seed))
     if variant == 'circ4':
         # one aperture cut by the image edge, one completely outside the image
         ap = CircularAperture([(10.3, 9.8), (38.6, 12.2), (18.4, 23.1), (60.0, 50.0)], 4.0)
         return ApertureStats(img, ap, error=err, local_bkg=[0.1, 0.2, 0.3, 0.4])
     if variant == 'sky3':
-        w = _wcs()
-        pos = w.pixel_to_world([10.3, 29.1, 18.4], [9.8, 12.2, 23.1])
-        ap = SkyCircularAperture(pos, 0.00075 * u.deg)
+        ap, w = sky_setup(variant)
         mask = np.hypot(*(np.indices(img.shape) - np.array([12.2, 29.1])[:, None, None])) < 6   # aperture 2 fully masked
         return ApertureStats(img * u.Jy, ap, error=err * u.Jy, mask=mask, wcs=w, sigma_clip=SigmaClip(3.0, maxiters=5),
                              sum_method='subpixel', subpixels=3, local_bkg=0.05 * u.Jy)
+    if variant == 'skywarp5':
+        # 'exact' sums are continuous in the aperture parameters, so any change of the pixel aperture shows
+        ap, w = sky_setup(variant)
+        return ApertureStats(img, ap, error=err, wcs=w, sum_method='exact', local_bkg=[0.1, 0.2, 0.3, 0.4, 0.5])
+    if variant == 'skysip4':
+        ap, w = sky_setup(variant)          # data with units
+        return ApertureStats(img * u.Jy, ap, error=err * u.Jy, wcs=w, sum_method='exact')
     if variant == 'single':
         from photutils.aperture import EllipticalAperture
         ap = EllipticalAperture([(18.4, 23.1)], 5.0, 3.0, theta=0.4)
@@ -249,7 +344,7 @@ def make(cls, variant, seed):
 
 
 def nsources(cls, variant):
-    return {'single': 1, 'sky3': 3, 'hard6': 6}.get(variant, 4)
+    return {'single': 1, 'sky3': 3, 'hard6': 6, 'skywarp5': 5}.get(variant, 4)
 
 
 # ============================================================================ index forms
@@ -817,14 +912,23 @@ def eval_compare(child, cls, p, exp, form, pre, sel):
     return None
 
 
-def _restore(child, snap, extras):
-    """Put the child back into its post-index state.  The extra-property list is restored *in place* (methods called
-    with ``name=`` append to it), so that whatever it is shared with stays shared."""
-    child.__dict__.clear()
-    child.__dict__.update(snap)
-    lst = snap.get('_extra_properties')
-    if isinstance(lst, list):
-        lst[:] = extras
+def _nested_snapshot(snap):
+    """Catalogs held by the child (the sliced detection catalog of a SourceCatalog built with ``detection_cat``): their
+    lazily filled __dict__ is part of the child's state -- (object, copy of its __dict__, content of its extra list)."""
+    return [(v, dict(v.__dict__), list(v.__dict__.get('_extra_properties') or []))
+            for v in snap.values() if type(v).__name__ in ('SourceCatalog', 'ApertureStats')]
+
+
+def _restore(child, snap, extras, nested=()):
+    """Put the child back into its post-index state (including the catalogs it holds, see ``_nested_snapshot``).  The
+    extra-property list is restored *in place* (methods called with ``name=`` append to it), so that whatever it is
+    shared with stays shared."""
+    for obj, d, ex in list(nested) + [(child, snap, extras)]:
+        obj.__dict__.clear()
+        obj.__dict__.update(d)
+        lst = d.get('_extra_properties')
+        if isinstance(lst, list):
+            lst[:] = ex
 
 
 def run_batch(acc, cls, variant, pre, form, seed):
@@ -847,6 +951,7 @@ def run_batch(acc, cls, variant, pre, form, seed):
         child = None
     snap = dict(child.__dict__) if child is not None else None
     extras = list(snap.get('_extra_properties') or []) if child is not None else None
+    nested = _nested_snapshot(snap) if child is not None else ()
     k0 = state_key({'child': _canon_dict(child), 'parent': _canon_dict(parent)}) if child is not None else None
     if k0 is not None:
         if acc.state_keys is None:
@@ -876,7 +981,7 @@ def run_batch(acc, cls, variant, pre, form, seed):
         if child is None:
             v = True
         else:
-            _restore(child, snap, extras)
+            _restore(child, snap, extras, nested)
             v = eval_compare(child, cls, p, exp, form, pre, sel)
         if v:
             v2 = run_trace(acc, cls, variant, pre, form, p, seed)
@@ -886,7 +991,7 @@ def run_batch(acc, cls, variant, pre, form, seed):
         else:
             acc.outcome((cls, p, isinstance(sel, int)))
     if child is not None:
-        _restore(child, snap, extras)
+        _restore(child, snap, extras, nested)
         k1 = state_key({'child': _canon_dict(child), 'parent': _canon_dict(parent)})
         if k1 != k0:
             # an evaluation changed an object shared with the snapshot: the batch is not a faithful stand-in for
@@ -1215,6 +1320,36 @@ def exceptional_sources(variant, seed):
     return {k: v for k, v in out.items() if v}
 
 
+def sky_first_position(variant):
+    """How much the pixel aperture of a sky-aperture variant depends on which position comes first, measured on the tree
+    under test: the shape parameters (pixels / radians) that the conversion yields when position k is the first one, their
+    largest relative spread, and how many of the index forms do not keep the parent's first source first."""
+    with warnings.catch_warnings():
+        warnings.simplefilter('ignore')
+        ap, w = sky_setup(variant)
+        n = len(ap.positions)
+        rows = []
+        try:
+            for k in range(n):
+                pix = ap[k].to_pixel(w)
+                rows.append({q: round(float(getattr(getattr(pix, q), 'value', getattr(pix, q))), 6)
+                             for q in pix._params if q != 'positions'})
+            names = list(rows[0])
+            spread = {q: (max(r[q] for r in rows) - min(r[q] for r in rows)) / max(abs(r[q]) for r in rows) for q in names}
+        except Exception as e:                  # the tree under test may be broken here
+            return {'unmeasurable': f'{type(e).__name__}: {e}'}
+    moved = kept = 0
+    for f in index_forms(n):
+        st, sel = select(f, n)
+        if st == 'ok':
+            first = sel if isinstance(sel, int) else sel[0]
+            moved += first != 0
+            kept += first == 0
+    return {'pixel_shape_parameters_if_position_k_is_first': rows,
+            'relative_spread': {q: round(v, 6) for q, v in spread.items()},
+            'index_forms_first_source_not_first': moved, 'index_forms_first_source_first': kept}
+
+
 def describe(tier, seed):
     out = {'variants': {'SourceCatalog': list(SC_VARIANTS), 'ApertureStats': list(AS_VARIANTS)}, 'template': {}}
     total = 0
@@ -1254,6 +1389,12 @@ def describe(tier, seed):
     out['methods_with_arguments'] = {'SourceCatalog': list(SC_METHODS), 'ApertureStats': list(AS_METHODS)}
     out['hard6_sources'] = dict(zip(map(str, HARD6_LABELS), HARD6_KINDS))
     out['exceptional_sources'] = {v: exceptional_sources(v, seed) for v in SC_VARIANTS}
+    out['world_coordinates'] = {'SourceCatalog': {'plain4': None, 'hard6': None, 'single': 'constant-scale TAN, 0.72"/pixel',
+                                                  'rich4': 'wide-field rotated TAN, 1.3 deg/pixel (via detection_cat)'},
+                                'ApertureStats': {'circ4': None, 'single': None, 'sky3': 'constant-scale TAN, 0.72"/pixel',
+                                                  'skywarp5': 'wide-field rotated TAN, 1.3 deg/pixel',
+                                                  'skysip4': 'TAN-SIP, 0.72"/pixel, order-2 distortion'}}
+    out['sky_first_position'] = {v: sky_first_position(v) for v in SKY_VARIANTS}
     out['bound'] = {'extras_bfs (variant, menu, depth)': [list(x) for x in extras_plan(tier)],
                     'template_depth': 'build, pre-cache (1 set), index (1 or 2 chained), evaluate 1 property'}
     out['tolerance'] = {'rtol': RTOL, 'atol': ATOL, 'extras': 0}
